@@ -60,3 +60,36 @@ Proof.
   unfold gmod. rewrite E1, E2.
   rewrite (period_ok_mod _ _ _ (fst s) Hx Hpx), (period_ok_mod _ _ _ (snd s) Hy Hpy). reflexivity.
 Qed.
+
+(* --- bridge to C05: the documented source cell IS the unfolded one ----------------------- *)
+From XV Require Import Spec.S05 Proofs.P05.
+Open Scope Z_scope.
+
+(* C05 describes the source cell of a halo cell with natural-number indices into the
+   neighbour (ortho_index: k cells inward from the linked edge; along: kept or mirrored);
+   these are exactly the local coordinates source_pos assigns *)
+Lemma ortho_index_is_ortho_z is_left rev (N k : nat) : (1 <= k <= N)%nat ->
+  Z.of_nat (ortho_index is_left rev N k) = ortho_z is_left rev (Z.of_nat N) (Z.of_nat k).
+Proof. intros H. unfold ortho_index, ortho_z. destruct (xorb is_left rev); lia. Qed.
+
+Lemma along_is_along_z swap rev (N t : nat) : (t < N)%nat ->
+  Z.of_nat (along swap rev N t) = along_z swap rev (Z.of_nat N) (Z.of_nat t).
+Proof. intros H. unfold along, along_z. destruct (swap && negb rev); lia. Qed.
+
+(* Hence: across a link that matches the charts, the cell C05 documents as the source of
+   the halo cell at depth k, along-edge position t is the cell of the undivided domain
+   lying k cells beyond the face's edge at that along-edge position *)
+Theorem documented_cell_is_global dom cf cs a_is_x is_left sa_is_x rev (N k t : nat) :
+  (0 < dom_lx dom)%Z -> (0 < dom_ly dom)%Z ->
+  link_consistentb dom cf cs a_is_x is_left sa_is_x rev (Z.of_nat N) = true ->
+  (1 <= k <= N)%nat -> (t < N)%nat ->
+  let swap := negb (Bool.eqb a_is_x sa_is_x) in
+  let o := Z.of_nat (ortho_index is_left rev N k) in
+  let t' := Z.of_nat (along swap rev N t) in
+  gmod dom (chart_apply cs (if sa_is_x then (o, t') else (t', o))) =
+  gmod dom (chart_apply cf (halo_pos a_is_x is_left (Z.of_nat N) (Z.of_nat k) (Z.of_nat t))).
+Proof.
+  intros Hx Hy Hc Hk Ht swap o t'. subst o t'.
+  rewrite (ortho_index_is_ortho_z _ _ _ _ Hk), (along_is_along_z _ _ _ _ Ht).
+  symmetry. apply (link_unfolds dom cf cs a_is_x is_left sa_is_x rev (Z.of_nat N) Hx Hy Hc).
+Qed.
